@@ -226,4 +226,104 @@ for c in req.get("swath_concat", []):
         res.append(err(e))
 out["swath_concat"] = res
 
+# ---- other code paths of get_lonlats (wave 2): dask chunks, cache= histories, nprocs, plain-slice data_slice
+import dask  # noqa: E402
+dask.config.set(scheduler="synchronous")
+
+
+def ds_of(ds):
+    if ds is None:
+        return None
+    if len(ds) == 1:                      # a plain slice object (rows)
+        return slice(ds[0][0], ds[0][1])
+    return (slice(ds[0][0], ds[0][1]), slice(ds[1][0], ds[1][1]))
+
+
+def tolist(a):
+    return np.asarray(a).tolist()
+
+
+def chunks_arg(c):
+    if isinstance(c, list):
+        return tuple(tuple(x) if isinstance(x, list) else x for x in c)
+    return c
+
+
+res = []
+for c in req.get("area_paths", []):
+    try:
+        a = mk_area(c["area"])
+        full_lo, full_la = a.get_lonlats()
+        px, py = a.get_proj_coords()
+        r = {"full": {"lons": tolist(full_lo), "lats": tolist(full_la)}, "proj": {"x": tolist(px), "y": tolist(py)},
+             "obs": obs_area(a), "dask": [], "hist": [], "plain": []}
+        for ch in c.get("chunks", []):
+            try:
+                dx, dy = a.get_proj_coords(chunks=chunks_arg(ch))
+                lo, la = a.get_lonlats(chunks=chunks_arg(ch))
+                e = {"chunks": [list(map(int, t)) for t in dx.chunks], "x": tolist(dx.compute()), "y": tolist(dy.compute()),
+                     "ll_chunks": [list(map(int, t)) for t in lo.chunks], "lons": tolist(lo.compute()), "lats": tolist(la.compute())}
+                ds = c.get("dask_slice")
+                if ds is not None:
+                    lo2, la2 = a.get_lonlats(chunks=chunks_arg(ch), data_slice=ds_of(ds))
+                    e["slice"] = {"lons": tolist(lo2.compute()), "lats": tolist(la2.compute())}
+                r["dask"].append(e)
+            except Exception as e:
+                r["dask"].append(err(e))
+        b = mk_area(c["area"])                    # a fresh object: the history of cached calls
+        for ds, flag in c.get("history", []):
+            try:
+                lo, la = b.get_lonlats(data_slice=ds_of(ds), cache=bool(flag))
+                r["hist"].append({"lons": tolist(lo), "lats": tolist(la), "memo_set": b.lons is not None})
+            except Exception as e:
+                r["hist"].append(err(e))
+        for ds in c.get("plain", []):
+            try:
+                lo, la = mk_area(c["area"]).get_lonlats(data_slice=ds_of(ds))
+                r["plain"].append({"lons": tolist(lo), "lats": tolist(la)})
+            except Exception as e:
+                r["plain"].append(err(e))
+        if c.get("nprocs"):
+            try:
+                lo, la = mk_area(c["area"]).get_lonlats(nprocs=c["nprocs"])
+                r["nprocs"] = {"lons": tolist(lo), "lats": tolist(la)}
+            except Exception as e:
+                r["nprocs"] = err(e)
+        res.append(r)
+    except Exception as e:
+        res.append(err(e))
+out["area_paths"] = res
+
+res = []
+for c in req.get("stack_paths", []):
+    try:
+        members = [mk_area(m, "m%d" % i) for i, m in enumerate(c["members"])]
+        st = StackedAreaDefinition(*members)
+        fresh = StackedAreaDefinition(*[mk_area(m, "m%d" % i) for i, m in enumerate(c["members"])])
+        flo, fla = fresh.get_lonlats()
+        r = {"ndefs": len(st.defs), "heights": [int(d.height) for d in st.defs], "width": int(st.width),
+             "full": {"lons": tolist(flo), "lats": tolist(fla)}, "dask": [], "hist": []}
+        for ch in c.get("chunks", []):
+            try:
+                lo, la = fresh.get_lonlats(chunks=chunks_arg(ch))
+                r["dask"].append({"chunks": [list(map(int, t)) for t in lo.chunks], "lons": tolist(lo.compute()), "lats": tolist(la.compute())})
+            except Exception as e:
+                r["dask"].append(err(e))
+        for op in c.get("history", []):
+            try:
+                if op[0] == "stack":
+                    lo, la = st.get_lonlats(data_slice=ds_of(op[1]), cache=bool(op[2]))
+                    same = bool(np.array_equal(np.asarray(st.lons), np.asarray(lo)) and np.array_equal(np.asarray(st.lats), np.asarray(la)))
+                    r["hist"].append({"lons": tolist(lo), "lats": tolist(la), "attr_is_result": same})
+                else:
+                    lo, la = st.defs[op[1]].get_lonlats(data_slice=ds_of(op[2]), cache=bool(op[3]))
+                    r["hist"].append({"lons": tolist(lo), "lats": tolist(la)})
+            except Exception as e:
+                r["hist"].append(err(e))
+        r["def_full"] = [lonlats(d) for d in fresh.defs]
+        res.append(r)
+    except Exception as e:
+        res.append(err(e))
+out["stack_paths"] = res
+
 json.dump(out, sys.stdout)
